@@ -453,7 +453,7 @@ func main() {
 	c.Extra["vocabulary"] = map[string]any{
 		"port_specs":                   portLabels(),
 		"prefix_sets":                  prefixSetDefs,
-		"domain_sets":                  map[string]any{"dsSuffix": domainSetDefs["dsSuffix"], "dsKw": domainSetDefs["dsKw"], "dsRe": domainSetDefs["dsRe"], "dsBig": "20 domain: rules + 6 suffix: rules (map + trie matchers), contains example.com both ways"},
+		"domain_sets":                  map[string]any{"dsSuffix": domainSetDefs["dsSuffix"], "dsKw": domainSetDefs["dsKw"], "dsRe": domainSetDefs["dsRe"], "dsOverlap": domainSetDefs["dsOverlap"], "dsBig": "20 domain: rules + 6 suffix: rules (map + trie matchers), contains example.com both ways"},
 		"variant_counts_quick_side":    vocabCounts(base),
 		"variant_counts_thorough_side": vocabCounts(ext),
 		"variant_counts_trimmed":       vocabCounts(trim),
